@@ -824,3 +824,15 @@ Proof.
   cbn [beats kept]. rewrite !N.eqb_refl. cbn [andb].
   assert (H : (0 + 2200 <? 2000) = false) by (vm_compute; reflexivity). rewrite H. reflexivity.
 Qed.
+
+(* a handshake MESSAGE that proves nothing (phase 1: answered with a challenge) on a connection authenticated earlier is the event
+   AuthFail; treating it as a (re-)registration (seeded C08-29 = the event AuthOK again on the old connection) moves the lookup
+   back to the connection the client has left *)
+Definition phase1_history (reregisters : bool) : list event :=
+  [Connect 1 10; AuthOK 1 10 7; Connect 2 20; AuthOK 2 20 7;
+   (if reregisters then AuthOK 1 10 7 else AuthFail 1 10); Heartbeat 2 20; Tick 1000; Heartbeat 2 20].
+
+Lemma phase1_message_must_not_register :
+  find current_variant redis_backend (run current_variant redis_backend 300000 init (phase1_history false)) 1 7 = Found 2 20 /\
+  find current_variant redis_backend (run current_variant redis_backend 300000 init (phase1_history true)) 1 7 = Found 1 10.
+Proof. split; vm_compute; reflexivity. Qed.
